@@ -22,10 +22,12 @@
 
    Designs explored side by side (variable `design`, chosen in Init from the constant set Designs):
      "intended"  the design the clauses are checked on
-     "found"     the code as found: (E) messages logged by a step / a stream method body that then raises are NOT written
-                 before the error (the collector / the sink is never flushed on the exception path); (T)
-                 HttpStreamSession.exchange discards whatever follows the data batch in the response
-     "onlyE" / "onlyT"   one of the two repaired
+     "lazy"      as "intended", but (P) HttpStreamSession.__iter__ reads a continuation response lazily: it hands out a
+                 batch as soon as it meets it, so what follows that batch in the response (messages the turn logged after
+                 out.emit()) is only read if the caller asks for another batch -- a caller that stops there never sees it
+     "found"     the code as first found: (P), and (E) messages logged by a step / a stream method body that then raises
+                 are NOT written before the error, and (T) HttpStreamSession.exchange discards whatever follows the data
+                 batch in the response   [(E) and (T) were repaired in /repo: 2c0e64a, e33f37e]
    The clauses are invariants of the intended design; the other designs only contribute their histories, so that a real
    execution is compared (for drift, never for a verdict) with every design the code may currently implement.       *)
 EXTENDS LogOrderClauses, TLC
@@ -42,7 +44,8 @@ SeqsOfLen(S, n) == IF n = 0 THEN {<<>>} ELSE {Append(s, x) : s \in SeqsOfLen(S, 
 StepScripts(kind) == LET E == IF kind = "prod" THEN EndStepsProd ELSE EndStepsExch IN
                      UNION {{Append(s, t) : s \in SeqsOfLen(EmitSteps, n), t \in E} : n \in 0..(MaxSteps - 1)}
                      \cup SeqsOfLen(EmitSteps, MaxSteps)
-OpsFor(kind) == IF kind = "prod" THEN {<<"i">>, <<"i", "c">>, <<"t", "c">>, <<"t", "x">>, <<"t", "w">>, <<"c">>, <<"x">>, <<"w">>}
+OpsFor(kind) == IF kind = "prod" THEN {<<"i">>, <<"i", "c">>, <<"t", "c">>, <<"t", "x">>, <<"t", "w">>, <<"c">>, <<"x">>, <<"w">>,
+                                        <<"t", "t", "c">>, <<"t", "t", "x">>, <<"t", "t", "w">>}
                 ELSE {<<"t", "t", "c">>, <<"t", "t", "w">>, <<"t", "c">>, <<"t", "x">>, <<"t", "w">>, <<"t", "t", "x">>, <<"c">>, <<"x">>}
 Scripts ==
   {[tr |-> tp, kind |-> "unary", hdr |-> FALSE, n0 |-> n, iraise |-> ir, steps |-> <<>>, ops |-> <<>>] :
@@ -65,8 +68,9 @@ Init == /\ script \in Scripts
                   fin |-> FALSE, await |-> FALSE, cancelled |-> FALSE, derr |-> FALSE]
         /\ em = <<>> /\ rv = <<>>
 
-FixLogsBeforeError == design \in {"intended", "onlyE"}
-FixHttpExchangeTail == design \in {"intended", "onlyT"}
+FixLogsBeforeError == design \in {"intended", "lazy"}
+FixHttpExchangeTail == design \in {"intended", "lazy"}
+FixHttpProducerTail == design = "intended"
 Http == script.tr \in {"http", "http_buf"}
 Buf == script.tr = "http_buf"
 Prod == script.kind = "prod"
@@ -248,6 +252,14 @@ CTickHttpProd ==
      THEN /\ See("S", 0) /\ cli' = [Done(cli) EXCEPT !.ended = TRUE] /\ UNCHANGED <<c2s, s2c>>
      ELSE IF s2c = <<>> /\ ~cli.await
      THEN /\ c2s' = Append(c2s, [t |-> "in"]) /\ cli' = [cli EXCEPT !.await = TRUE] /\ UNCHANGED <<s2c, rv>>
+     ELSE IF FixHttpProducerTail
+     THEN \* the continuation response is read completely (like /init): every message in it is delivered, its batches are
+          \* kept and handed out one by one, an error behind them is raised once they were handed out
+          /\ s2c # <<>> /\ s2c' = <<>> /\ UNCHANGED c2s
+          /\ LET got == IF Has(s2c, "E") THEN Upto(s2c, "E") ELSE s2c IN
+             /\ rv' = rv \o Deliver(got)
+             /\ cli' = [cli EXCEPT !.pend = DataOf(got), !.tok = Has(got, "K"), !.fin = ~Has(got, "K"),
+                                   !.derr = Has(s2c, "E"), !.await = FALSE]
      ELSE /\ s2c # <<>>
           /\ s2c' = Tail(s2c) /\ UNCHANGED c2s
           /\ LET x == Head(s2c) IN
@@ -273,14 +285,13 @@ CTickHttpExch ==
   /\ UNCHANGED <<script, design, srv, em>>
 
 \* leaving a session.  close() and __exit__ are the same operation; pipe: end of input, then the output is read to its
-\* end; http: nothing is sent (an exchange session has read every response completely, a producer session may hold a
-\* half-read response that is simply abandoned)
+\* end; http: nothing is sent and nothing is read (every response was read completely when it arrived -- except by the
+\* "lazy" producer iterator, which abandons what follows the last batch it handed out)
 Quit == rv' = Append(rv, Rv("Q", 0))
 CClose ==
   /\ cli.pc = "ready" /\ NextOp \in {"c", "w"}
   /\ IF Http
-     THEN /\ cli' = Done(cli) /\ UNCHANGED c2s
-          /\ IF Prod THEN UNCHANGED rv ELSE Quit
+     THEN cli' = Done(cli) /\ UNCHANGED c2s /\ Quit
      ELSE IF cli.closed
      THEN cli' = Done(cli) /\ UNCHANGED c2s /\ Quit           \* already read to its end by the turn that ended it
      ELSE c2s' = Append(c2s, [t |-> "ie"]) /\ cli' = [cli EXCEPT !.pc = "drain", !.cur = NextOp, !.closed = TRUE] /\ UNCHANGED rv
@@ -288,7 +299,7 @@ CClose ==
 CCancel ==
   /\ cli.pc = "ready" /\ NextOp = "x"
   /\ IF Http
-     THEN cli' = [Done(cli) EXCEPT !.cancelled = TRUE, !.ended = TRUE] /\ UNCHANGED <<c2s, rv>>
+     THEN cli' = [Done(cli) EXCEPT !.cancelled = TRUE, !.ended = TRUE] /\ UNCHANGED c2s /\ Quit
      ELSE IF cli.closed
      THEN cli' = [Done(cli) EXCEPT !.cancelled = TRUE, !.ended = TRUE] /\ UNCHANGED c2s /\ Quit
      ELSE /\ c2s' = c2s \o <<[t |-> "cx"], [t |-> "ie"]>> /\ UNCHANGED rv
